@@ -138,6 +138,10 @@ macro_rules! impl_from_slice_conversions {
                     // First, we need a raw pointer to the slice and to make sure that the `Box` is
                     // forgotten so that our slice does not get deallocated.
                     let len = slice.len();
+                    // Bail out before forgetting the `Box` so that a failed conversion releases it.
+                    if len % $N != 0 {
+                        return None;
+                    }
                     let slice_ptr = &mut slice as &mut [S] as *mut [S];
                     core::mem::forget(slice);
                     let sample_slice = unsafe {
